@@ -329,7 +329,7 @@ def _pragmas_as_prints(text):
     return sf.to_fortran(), sorted(spec)
 
 
-def replay_equiv(p1, p2, sizes, model, timeout=120, trace_pragmas=False):
+def replay_equiv(p1, p2, sizes, model, timeout=120, trace_pragmas=False, rtol=1e-6):
     """compile original and transformed program with gfortran, run both on the model inputs, compare printed outputs.
     returns (differs: bool|None, message)"""
     outs = []
@@ -394,7 +394,7 @@ def replay_equiv(p1, p2, sizes, model, timeout=120, trace_pragmas=False):
             continue
         try:
             x, y = float(a), float(b)
-            if abs(x - y) <= 1e-6 * max(1.0, abs(x), abs(y)):
+            if rtol and abs(x - y) <= rtol * max(1.0, abs(x), abs(y)):
                 continue
         except ValueError:
             pass
@@ -409,6 +409,7 @@ def selfcheck(prog, sizes, seed=0, timeout=120):
     assumptions), evaluate the interpreter's observables under them and compare with the compiled program's output.
     returns (ok: bool|None, message)"""
     import random  # pylint: disable=import-outside-toplevel
+    selfcheck.last_model = None
     rnd = random.Random(seed)
     sem = Sem('real')
     try:
@@ -430,6 +431,7 @@ def selfcheck(prog, sizes, seed=0, timeout=120):
         return None, 'no admissible input found'
     m = opt.model()
     model = {n: model_value2(m, v) for n, v in it.inputs.items()}
+    selfcheck.last_model = model
     want = {}
     for label, term in obs:
         if '::' in label:
